@@ -42,3 +42,10 @@ Definition judge_c20 (e : env) (raw : node) (src : string) (impl : result (optio
   let holds := match impl with Ok (Some q) => holds_c20 raw src q || N.eqb cls 8 | _ => true end in
   [b2n (wf_order raw) + 2 * b2n (cte_alias_shared raw) + 4 * b2n (N.eqb cls 8); cls; b2n holds;
    outcome_diff (parse_query e raw src true) impl].
+
+(** ** the Kotlin / Python naming models against the emitted code *)
+From Verif Require Import Model.KtPyGen.
+Definition kt_check (cols : list (Z * string)) (fields binds : list string) : list N :=
+  [b2n (strs_eqb (kt_fields cols) fields); b2n (strs_eqb (kt_bindings cols) binds)].
+Definition py_check (ps : list (Z * string)) (args : list string) : list N :=
+  [b2n (strs_eqb (py_args ps) args)].
